@@ -198,7 +198,7 @@ def commit_tag_names(c):
 
 def saved_version(c):
     """major.minor of the VERSION file of the commit: present when a build tag does not name its release line"""
-    ver = [bn for bn in c.get("t", []) if bn[0] >= MASTER_STYLE_FROM]
+    ver = [bn for bn in c.get("t", []) if isinstance(bn[0], int) and bn[0] >= MASTER_STYLE_FROM]
     if ver:
         return (ver[0][0], ver[0][1])
     return tuple(c["sv"]) if c.get("sv") else None
@@ -208,6 +208,8 @@ NOISE_TAGS = ["v1.%d", "build_%d_release_1_1_failed", "build_%d_success", "xbuil
               "build_x%d_release_1_1_success", "build_%d_release_1_1_success_", "Build_%d_release_1_1_success",
               "build_%drelease_1_1_success", "build__release_1_%d_success", "release_1_%d"]        # no build tags
 TRAP_BUILD_TAGS = ["build_00%d_release_1_1_success", "build_%d_release_01_0010_success"]             # build tags
+TRAP_UNKNOWN_TAGS = ["build_%d_nightly_success", "build_%d_master_success", "build_%d_main_success",
+                     "build_%d_release_x_success"]          # build tags on a commit without a version file: ?.?.n
 TRAP_SAVED_TAGS = ["build_%d_release_1_2_3_success", "build_%d_prerelease_1_2_success", "build_%d__success",
                    "build_%d_release_1_success", "build_%d_release_1_x_success"]   # build tags that need the VERSION file
 
@@ -221,12 +223,47 @@ def add_noise_tags(rng, h, p=0.35, traps=True):
         xt = [t % (i + 1) if "%d" in t else t]
         if traps and rng.random() < 0.3:
             xt.append(rng.choice(TRAP_BUILD_TAGS) % (200 + i))
-        if traps and rng.random() < 0.4:
+        if traps and saved_version(c) is None and rng.random() < 0.3:
+            # job names that do not name a release line, no version file: the version is unknown ('?'); often next to
+            # a release-style tag of the same commit, sometimes two of them
+            xt.append(rng.choice(TRAP_UNKNOWN_TAGS) % (400 + i))
+            if rng.random() < 0.3:
+                xt.append(rng.choice(TRAP_UNKNOWN_TAGS[:2]) % (500 + i))
+        elif traps and rng.random() < 0.4:
             if saved_version(c) is None:
                 c["sv"] = rng.choice([[1, 1], [2, 0], [77, 3]])      # a version file without a master-style tag
             xt.append(rng.choice(TRAP_SAVED_TAGS) % (300 + i))
         c["xt"] = xt
+    if traps:
+        add_equal_numbers(rng, h)
     return h
+
+
+def add_equal_numbers(rng, h, p=0.5):
+    """a second tag that completes to a build number another commit already has: the same counter under a renamed job
+    (`build_7_master_success` / `build_7_main_success`, same VERSION) or written with leading zeros"""
+    if rng.random() >= p:
+        return
+    cs = h["commits"]
+    src = [(i, bn) for i, c in enumerate(cs) for bn in c.get("t", []) if isinstance(bn[0], int)]
+    for _ in range(rng.randint(1, 2)):
+        if not src or len(cs) < 2:
+            return
+        i, bn = rng.choice(src)
+        j = rng.choice([k for k in range(len(cs)) if k != i])
+        d = cs[j]
+        if bn[0] >= MASTER_STYLE_FROM:
+            sv = saved_version(d)
+            if sv is not None and tuple(sv) != tuple(bn[:2]):
+                continue
+            if sv is None:
+                d["sv"] = list(bn[:2])
+            name = "build_%d_main_success" % bn[2]
+        else:
+            name = "build_%s%d_release_%d_%d_success" % ("0" * rng.randint(1, 2), bn[2], bn[0], bn[1])
+        if any(name in c2.get("xt", []) for c2 in cs):
+            continue
+        d.setdefault("xt", []).append(name)
 
 
 def commit_message(c, i, text):
@@ -269,7 +306,7 @@ def dec_tags(t, sv):
             M, mi = [int(x) for x in sv.split(".")]
             bns.append([M, mi, n, n])
         else:
-            raise ValueError("build tag %r on a commit without a VERSION file" % name)
+            bns.append(["?", "?", n, n])        # no version file: major.minor unknown
     return bns, other
 
 
